@@ -11,25 +11,25 @@ package actionlint
 //@   props C14
 //@   anchor
 //@   loop "range exec.Inputs":
-//@     body_calls (*RuleBase).Errorf iff !meta.Inputs.has(id)
-//@     at_call (*RuleBase).Errorf: pos == i.Name.Pos
+//@     body_calls (*RuleBase).Errorf iff !meta.Inputs.has(range_k)
+//@     at_call (*RuleBase).Errorf: pos == range_v.Name.Pos
 //@   loop "range meta.Inputs" #2:
-//@     body_calls (*RuleBase).Errorf iff i.Required && !exec.Inputs.has(id)
+//@     body_calls (*RuleBase).Errorf iff range_v.Required && !exec.Inputs.has(range_k)
 //@     at_call (*RuleBase).Errorf: pos == exec.Uses.Pos
 
 //@ func (*RuleWorkflowCall).checkWorkflowCallUsesLocal
 //@   props C14
 //@   anchor
 //@   loop "range m.Inputs":
-//@     body_calls (*RuleBase).Errorf iff i != nil && i.Required && !call.Inputs.has(n)
+//@     body_calls (*RuleBase).Errorf iff range_v != nil && range_v.Required && !call.Inputs.has(range_k)
 //@   loop "range call.Inputs":
-//@     body_calls (*RuleBase).Errorf iff !m.Inputs.has(n)
-//@     at_call (*RuleBase).Errorf: pos == i.Name.Pos
+//@     body_calls (*RuleBase).Errorf iff !m.Inputs.has(range_k)
+//@     at_call (*RuleBase).Errorf: pos == range_v.Name.Pos
 //@   loop "range m.Secrets":
-//@     body_calls (*RuleBase).Errorf iff s.Required && !call.Secrets.has(n)
+//@     body_calls (*RuleBase).Errorf iff range_v.Required && !call.Secrets.has(range_k)
 //@   loop "range call.Secrets":
-//@     body_calls (*RuleBase).Errorf iff !m.Secrets.has(n)
-//@     at_call (*RuleBase).Errorf: pos == s.Name.Pos
+//@     body_calls (*RuleBase).Errorf iff !m.Secrets.has(range_k)
+//@     at_call (*RuleBase).Errorf: pos == range_v.Name.Pos
 
 // outputs: strict object with exactly the lower-cased declared names, open when outputs are dynamic
 //@ func typeOfActionOutputs
